@@ -8,6 +8,9 @@ package core
 // VerifResetChain forgets the chain singletons so that InitCore builds them again from the
 // stores (an in-process restart). The caller closes the stores first.
 func VerifResetChain() {
+	if groupChainImpl != nil && groupChainImpl.joinedGroups != nil {
+		groupChainImpl.joinedGroups.Close() // groupChain.Close leaves this store open
+	}
 	blockChainImpl = nil
 	groupChainImpl = nil
 }
